@@ -46,7 +46,9 @@ type stmtSliceContainerMatcher struct {
 func (c *matcherCompiler) compilePGoStmtList(slist *pgo.StmtList) Matcher {
 	var list []ast.Stmt
 	if len(slist.List) > 0 {
-		list = append(list, dotsStmt(c.patchStart))
+		if !startsWithDotsAt(c.fset, slist.List, c.patchStart) {
+			list = append(list, dotsStmt(c.patchStart))
+		}
 		list = append(list, slist.List...)
 		list = append(list, dotsStmt(c.patchEnd))
 	}
@@ -132,7 +134,9 @@ type stmtSliceContainerReplacer struct {
 func (c *replacerCompiler) compilePGoStmtList(slist *pgo.StmtList) Replacer {
 	var list []ast.Stmt
 	if len(slist.List) > 0 {
-		list = append(list, dotsStmt(c.patchStart))
+		if !startsWithDotsAt(c.fset, slist.List, c.patchStart) {
+			list = append(list, dotsStmt(c.patchStart))
+		}
 		list = append(list, slist.List...)
 		list = append(list, dotsStmt(c.patchEnd))
 	}
@@ -195,6 +199,29 @@ type stmtListField struct {
 
 	// Captured value of the field.
 	Value reflect.Value
+}
+
+// startsWithDotsAt reports whether the statement list begins with a "..." at
+// the given position of the patch.
+//
+// A list of statements in a patch is implicitly preceded by a "..." placed
+// at the start of the patch. If the patch itself begins with a "..." in the
+// first column, the two would be at the same line and column. "..."s in the
+// "-" and "+" sections are associated with each other by line and column, so
+// the statements skipped by one would be reproduced in place of those skipped
+// by the other. The "..." that is already there does the job of the implicit
+// one.
+func startsWithDotsAt(fset *token.FileSet, list []ast.Stmt, pos token.Pos) bool {
+	es, ok := list[0].(*ast.ExprStmt)
+	if !ok {
+		return false
+	}
+	dots, ok := es.X.(*pgo.Dots)
+	if !ok {
+		return false
+	}
+	dotsPos, startPos := fset.Position(dots.Pos()), fset.Position(pos)
+	return dotsPos.Line == startPos.Line && dotsPos.Column == startPos.Column
 }
 
 func dotsStmt(pos token.Pos) ast.Stmt {
